@@ -17,7 +17,7 @@ EXPLANATION = (
     "the tapleaf-hash pointer at construction is what the Done transition copies into the signing data; Failed does not advance. "
     "R05.4 CheckTapTweak hands all of its inputs (including the parity) to libsecp256k1's tweak_add_check. SHA-256 / secp256k1 "
     "correctness is not decided.")
-TRUSTED = ["clang 14 parser/Sema/constant evaluator", "/verif extractor", "the batch twin as transcription of BIP341 (cross-checked against spec constants)"]
+TRUSTED = ["clang 14 parser/Sema/constant evaluator", "/verif extractor", "/verif term evaluator G-SYM (checker/symx.py): inlining, loop summaries relative to prev, linear normal form; casts between integer types are treated as value-preserving", "the batch twin as transcription of BIP341 (cross-checked against spec constants)"]
 ASSUMPTIONS = ["libsecp256k1 and SHA-256 are correct"]
 DECLINED = ["SHA-256 / secp256k1 correctness", "displayed intermediate values beyond being the hashed quantities"]
 
@@ -117,55 +117,6 @@ def ptr_off(e, var):
             if y["k"] in ("ref", "mem"):
                 return norm(y["n"]), (0, 0)
     return None, None
-
-
-def stream_chain_ops(expr):
-    """operands of a `(HashWriter(H) << a << b)` chain, with the hasher global it was copied from"""
-    for n in walk(expr):
-        if n["k"] in ("opcall",) and n.get("op") == "<<":
-            base, ops = streams.flatten_chain(n)
-            h = None
-            for y in walk(base):
-                if y["k"] == "ref" and y.get("dk") == "global" and y["n"].startswith("HASHER_"):
-                    h = y["n"]
-            if h:
-                return h, [norm(astq.estr(o[1])) for o in ops]
-    return None, []
-
-
-def branch_facts(func):
-    """facts of the TapBranch fold inside func"""
-    out = {}
-    for n in func.nodes():
-        if n["k"] == "if" and n["cond"].get("k") == "call" and n["cond"].get("n") == "lexicographical_compare":
-            out["cmp"] = [norm(astq.estr(a)) for a in n["cond"]["args"]]
-            for arm, key in ((n["then"], "then"), (n.get("else"), "else")):
-                seq = []
-                for m in walk(arm):
-                    if m["k"] == "opcall" and m.get("op") == "<<":
-                        base, ops = streams.flatten_chain(m)
-                        if base is not None and base.get("k") == "ref" and "branch" in base["n"]:
-                            seq = [norm(astq.estr(o[1])) for o in ops]
-                            break
-                out[key] = seq
-            out["node"] = n
-    # hasher initialisation of ss_branch and definition of node
-    for n in func.nodes():
-        if n["k"] == "decl":
-            for d in n["decls"]:
-                if "branch" in d["n"] and d.get("init") is not None:
-                    hs = [y["n"] for y in walk(d["init"]) if y["k"] == "ref" and y.get("dk") == "global"]
-                    out["hasher"] = hs[0] if hs else None
-                if d["n"] == "node" and d.get("init") is not None:
-                    out["slice"] = byte_slice(d["init"])
-                if norm(d["n"]) == "path_len" and d.get("init") is not None:
-                    out["path_len"] = norm(astq.estr(d["init"]))
-    for n in func.nodes():
-        if n["k"] == "assign" and norm(astq.estr(n["lhs"])) == "path_len":
-            out["path_len"] = norm(astq.estr(n["rhs"]))
-        if n["k"] == "opcall" and n["op"] == "=" and norm(astq.estr(n["args"][0])) == "k" and "GetSHA256" in astq.estr(n["args"][1]) and "branch" in astq.estr(n["args"][1]):
-            out["k_update"] = True
-    return out
 
 
 def run(ctx, anchors=None):
@@ -469,28 +420,6 @@ def c02sub(t, a=("it", 0), b=("a", "i")):
     if isinstance(t, tuple):
         return tuple(c02sub(x, a, b) for x in t)
     return t
-
-
-def first_sized_arg(e):
-    """descend through XOnlyPubKey{...} / uint256(...) wrappers to the byte-range expression"""
-    x = e
-    for _ in range(6):
-        if x is None:
-            return None
-        if x.get("k") == "initlist" and x.get("ch"):
-            x = x["ch"][0]
-            continue
-        if x.get("k") == "ctor":
-            ty = x.get("ty", "")
-            args = [a for a in x["args"] if a is not None and a.get("k") != "defarg"]
-            if ("XOnlyPubKey" in ty or "uint256" in ty or x.get("copy")) and len(args) == 1:
-                x = args[0]
-                continue
-        if x.get("k") == "cast":
-            x = x["e"]
-            continue
-        break
-    return x
 
 
 def size_pred_is(n):
